@@ -17,6 +17,7 @@ import (
 	"github.com/anyproto/any-sync/commonspace/object/acl/list"
 	"github.com/anyproto/any-sync/commonspace/object/tree/objecttree"
 	"github.com/anyproto/any-sync/commonspace/object/tree/treechangeproto"
+	"github.com/anyproto/any-sync/commonspace/object/tree/treestorage"
 	"github.com/anyproto/any-sync/util/crypto"
 
 	"verifharness/internal/corr"
@@ -197,6 +198,8 @@ func classify(err error) string {
 		return "aclorder"
 	case strings.Contains(s, "not all entries are there"):
 		return "aclorder-unknown"
+	case errors.Is(err, objecttree.ErrDerived):
+		return "derived-empty"
 	case errors.Is(err, objecttree.ErrEmptyChange):
 		return "empty"
 	case strings.Contains(s, "proto:") || strings.Contains(s, "unexpected EOF") || strings.Contains(s, "invalid ed25519") ||
@@ -550,4 +553,101 @@ func (tc *treeCase) extendAcl(k int) {
 		tc.r.Fatal("model rejected acl line: " + got)
 	}
 	tc.r.Count("acl.extended")
+}
+
+// ---- whole-tree validation (the path by which a tree received from a peer is admitted) ----
+
+type storageCreator struct{ h *harnessState }
+
+func (s storageCreator) CreateTreeStorage(ctx context.Context, payload treestorage.TreeStorageCreatePayload) (objecttree.Storage, error) {
+	st, err := objecttree.CreateStorage(ctx, payload.RootRawChange, s.h.hs, s.h.db)
+	if err != nil {
+		return nil, err
+	}
+	if x, ok := st.(addSeqSetter); ok {
+		x.SetAddSeq(&atomic.Uint64{})
+	}
+	return st, nil
+}
+
+func (s storageCreator) CreateStorageWithDeferredCreation(ctx context.Context, payload treestorage.TreeStorageCreatePayload) (objecttree.Storage, error) {
+	st, err := objecttree.CreateStorageWithDeferredCreation(ctx, payload.RootRawChange, s.h.hs, s.h.db)
+	if err != nil {
+		return nil, err
+	}
+	if x, ok := st.(addSeqSetter); ok {
+		x.SetAddSeq(&atomic.Uint64{})
+	}
+	return st, nil
+}
+
+// validate runs the REAL ValidateRawTreeDefault (empty-data verifying builder, full validation,
+// heads comparison) on a root plus changes claimed to have the given heads.
+func (tc *treeCase) validate(root *rawCh, batch []*rawCh, heads []string, tag string) {
+	tc.rootId = root.id
+	tc.attached = map[string]*parsed{}
+	rp := tc.parseRaw(root.id, root.body, root.id)
+	rp.label = root.label
+	ps := []*parsed{rp}
+	wires := []string{tc.wire(rp)}
+	var raws []*treechangeproto.RawTreeChangeWithId
+	for _, rc := range batch {
+		p := tc.parseRaw(rc.id, rc.body, root.id)
+		p.label = rc.label
+		ps = append(ps, p)
+		wires = append(wires, tc.wire(p))
+		raws = append(raws, rc.proto())
+	}
+	hn := make([]int, len(heads))
+	for i, x := range heads {
+		hn[i] = tc.chNum(x)
+	}
+	model := tc.ask("validate heads=" + joinInts(hn, ".") + " " + strings.Join(wires, " "))
+	var tr objecttree.ObjectTree
+	var err error
+	func() {
+		defer func() {
+			if rec := recover(); rec != nil {
+				err = fmt.Errorf("panic: %v", rec)
+			}
+		}()
+		tr, err = objecttree.ValidateRawTreeDefault(treestorage.TreeStorageCreatePayload{
+			RootRawChange: root.proto(), Changes: raws, Heads: append([]string(nil), heads...),
+		}, storageCreator{tc.h}, tc.recv)
+	}()
+	impl := "err:" + classify(err)
+	var iter []string
+	if err == nil {
+		tr.IterateRoot(nil, func(c *objecttree.Change) bool { iter = append(iter, c.Id); return true })
+		impl = "ok a=" + sortedNums(tc, iter)
+	}
+	tc.check("auth.validate", model, impl)
+	tc.r.Count("validate." + tag + "." + strings.SplitN(impl, " ", 2)[0])
+	if err != nil {
+		return
+	}
+	cand := map[string]*parsed{}
+	for _, p := range ps {
+		if oracleCid(p.body) == p.id {
+			if _, ok := cand[p.id]; !ok {
+				cand[p.id] = p
+			}
+		}
+	}
+	env := map[string]*parsed{}
+	for _, id := range iter {
+		if c, ok := cand[id]; ok {
+			env[id] = c
+		}
+	}
+	for _, id := range iter {
+		c, ok := cand[id]
+		if !ok {
+			tc.violate("auth.validate.oracle", fmt.Sprintf("change %d is in the validated tree but no supplied raw change has that id as the hash of its bytes", tc.chNum(id)))
+			continue
+		}
+		if ok, why := tc.authentic(c, env); !ok {
+			tc.violate("auth.validate.oracle", fmt.Sprintf("whole-tree validation admitted change %d (%s) although %s", tc.chNum(id), c.label, why))
+		}
+	}
 }
